@@ -16,6 +16,7 @@ RULE = ("one run = 1-8 concurrent client tasks issuing 1-30 EtherCat.roundtrip c
         "and completion with global sequence numbers); non-trivial = at least 2 "
         "requests and 1 frame")
 RULE += "; 'long-history' since the 4th session also: a burst of 4097-4796 requests in one loop turn whose frames are lost behind the held one (they may only stay pending), and an unsendable request (datagram index > 255) made first"
+RULE += '; also payload buffers (bytearray) the application reuses as soon as the request is made, a second master of another program on the interface (25 %), interfaces reporting an MTU of 4000/9000'
 COMPONENTS = {
     "real": ["ebpfcat.ethercat.EtherCat.connect/connection_made/sendloop/process_packet/"
              "roundtrip_packet/roundtrip/datagram_received", "ebpfcat.ethercat.Packet",
